@@ -119,6 +119,11 @@ pub const FRAGMENTS: &[&str] = &[
     "(define x (+ x 1))",
     "(define y (+ y 1))",
     "y",
+    // tokens that span input lines (the line break belongs to the token), and an empty line
+    "(list \"a",
+    "b\" '|c",
+    "d|)",
+    "",
 ];
 
 #[derive(Debug, PartialEq, Clone)]
@@ -139,7 +144,9 @@ pub fn reference_session(lines: &[&str], predicate: fn(&str) -> bool) -> Result<
         let mut err = vec![];
         let mut pending = String::new();
         for l in lines {
-            if l.is_empty() {
+            // an empty line is nothing when no form is pending; inside a pending form it is a line
+            // break like any other (it may sit inside a string or |symbol|)
+            if l.is_empty() && pending.is_empty() {
                 continue;
             }
             pending.push_str(l);
@@ -163,7 +170,8 @@ pub fn reference_session(lines: &[&str], predicate: fn(&str) -> bool) -> Result<
                 }
                 match last {
                     Ok(Some(Value::Void)) | Ok(None) => {}
-                    Ok(Some(v)) => out.push(format!("{}", v)),
+                    // (the binary's output is compared line by line)
+                    Ok(Some(v)) => out.extend(format!("{}", v).split('\n').map(|l| l.to_string())),
                     Err(e) => err.push(strip_locations(&format!("{}", e))),
                 }
                 pending.clear();
